@@ -22,7 +22,7 @@ func init() {
 
 func runC19(ctx *Ctx) {
 	alpha := []byte{'_', '%', '.', ' ', 'a', 'F', '0', 0xc3, 0xa9, '@', '~'}
-	maxLen := ctx.Budget(4, 6)
+	maxLen := ctx.Len(4, 6)
 	var segs [][]byte
 	enumStrings(alpha, maxLen, func(s []byte) { segs = append(segs, append([]byte(nil), s...)) })
 	for b := 0; b < 256; b++ {
@@ -56,7 +56,7 @@ func runC19(ctx *Ctx) {
 	})
 	reqs = reqs[:0]
 	var paths []string
-	enumStrings([]byte{'/', '.', 'a', '{'}, ctx.Budget(7, 9), func(s []byte) { paths = append(paths, string(s)) })
+	enumStrings([]byte{'/', '.', 'a', '{'}, ctx.Len(7, 9), func(s []byte) { paths = append(paths, string(s)) })
 	for _, p := range paths {
 		reqs = append(reqs, "tagtitle "+hx([]byte(p)))
 	}
